@@ -59,6 +59,17 @@ def sock_cases(tier, rnd):
                     ops.append(["net", "accept", d])
                     ops += [["send", "zone_ctrl", pol, "inline"], ["adv", d + 3.0]]
                     out.append(ops)
+    # --- k consecutive faults of one exception kind (budget must be consumed whatever the
+    #     OSError subclass is)
+    for pol, (r, L) in pols.items():
+        for exc in ("reset", "timeout", "oserror"):
+            for k in (1, 2, 3, 4):
+                ops = [["q"], ["wfail", 1, exc]]
+                for i in range(k - 1):
+                    ops.append(["net", "accept", 0.0, 1, exc])
+                ops.append(["net", "accept", 0.1])
+                ops += [["send", "ac_ctrl", pol, "inline"], ["adv", 3.0]]
+                out.append(ops)
     # --- accepted while down, first connection at `a` faults, next connection at `b`
     #     (an expiry that moved with the retry would let the message out after its lifetime)
     for pol, (r, L) in pols.items():
